@@ -142,7 +142,11 @@ func (m *wModel) exists(k string) bool {
 }
 
 // compileRules: listed rules and rules outside the statement's list.
-func (m *wModel) compileRules(opt string) (listed, unlisted []string) {
+func (m *wModel) compileRules(opt string) (listed, unlisted []string, nviol int) {
+	defer func() {
+		nviol = len(listed) + len(unlisted)
+		listed, unlisted = dedupe(listed), dedupe(unlisted)
+	}()
 	s := &m.s
 	if s.reserved > 0 {
 		listed = append(listed, "reserved-key")
@@ -209,7 +213,7 @@ func (m *wModel) compileRules(opt string) (listed, unlisted []string) {
 		}
 		for _, t := range c.T {
 			if t == compose.END {
-				exit = true
+				// a workflow branch carries no data and does not count as an exit: END needs an input of its own
 			} else if !m.exists(t) {
 				listed = append(listed, "unknown-key")
 			}
@@ -227,7 +231,7 @@ func (m *wModel) compileRules(opt string) (listed, unlisted []string) {
 	if opt == "allpred" || opt == "max" {
 		listed = append(listed, "invalid-option-combination")
 	}
-	return dedupe(listed), dedupe(unlisted)
+	return listed, unlisted, 0
 }
 
 var compileStageRules = map[string]bool{"missing-entry": true, "missing-exit": true, "cycle-in-all-predecessor-mode": true,
@@ -285,7 +289,7 @@ func (m *wModel) Step(c *Call) (Model, Expect, bool) {
 		return n, Expect{HasErr: false, V: vAccept, From: stLive}, true
 	}
 	// compile
-	listed, unlisted := m.compileRules(c.Opt)
+	listed, unlisted, nviol := m.compileRules(c.Opt)
 	if len(listed) == 0 && len(unlisted) == 0 {
 		n.s.status = stCompiled
 		n.s.first = c.Idx
@@ -293,13 +297,13 @@ func (m *wModel) Step(c *Call) (Model, Expect, bool) {
 	}
 	if len(listed) == 0 {
 		n.s = wState{status: stUnknown}
-		return n, Expect{HasErr: true, V: vEither, Rules: unlisted, Unlisted: true, From: stLive}, true
+		return n, Expect{HasErr: true, V: vEither, Rules: unlisted, Unlisted: true, NViol: nviol, From: stLive}, true
 	}
 	n.s.status = stDead
 	n.s.deadBy = c.Idx
 	n.s.deadPos = s.depth
 	n.s.deadRules = listed
-	return n, Expect{HasErr: true, V: vReject, Rules: listed, From: stLive}, true
+	return n, Expect{HasErr: true, V: vReject, Rules: listed, NViol: nviol, From: stLive}, true
 }
 
 // ---------------------------------------------------------------------------------------------------
